@@ -129,7 +129,9 @@ func (e *aggregate) save(b []byte, value float64) []byte {
 }
 
 func (e *aggregate) IsConstant() bool {
-	return e.Wrapped.IsConstant()
+	// An aggregate always reads its accumulated state, even if it aggregates a
+	// constant (e.g. SUM(1) counts points), so it can't be evaluated without it.
+	return false
 }
 
 func (e *aggregate) DeAggregate() Expr {
